@@ -36,6 +36,12 @@ def gen_cases(tier, seed):
                       "new_rows": int(rng.integers(2, 25)), "new_rgo": [None, 3, 7][int(rng.integers(0, 3))],
                       "new_partitions": bool(rng.integers(0, 2)),
                       "kill": (tier == "thorough") or (i % 6 == 0)})
+        if i % 4 == 3:
+            # an existing dataset with many part files (part numbers of two digits and more; with partitions several per directory)
+            cases[-1]["init_rows"] = int(rng.integers(24, 60))
+            cases[-1]["init_rgo"] = int(rng.integers(1, 3))
+        elif i % 8 == 6:
+            cases[-1]["init_appends"] = int(rng.integers(1, 4))     # the existing dataset is itself the result of earlier appends
     return cases
 
 
@@ -102,10 +108,14 @@ def run_case(case):
         if case["init_rgo"]:
             kw["row_group_offsets"] = case["init_rgo"]
         fastparquet.write(tmpl, df0, **kw)
+        for j in range(case.get("init_appends", 0)):
+            fastparquet.write(tmpl, _frame(rng0, 1000 * (j + 1), int(rng0.integers(3, 12)), case["nparts"]), append=True, **kw)
         old = _rids(tmpl)
         rng = np.random.default_rng([case["seed"], 2])
         new = _frame(rng, 10 ** 6, case["new_rows"], case["nparts"], case["new_partitions"])
         old_files = {rel for rel in fsmon.snapshot(tmpl) if not fsmon.is_meta(rel)}
+        if len(old_files) >= 11:
+            counters["scenarios_with_ge_11_existing_parts"] = 1
         # fault-free run: measure K and where the metadata rewrite starts
         shutil.copytree(tmpl, work)
         seam = fsmon.FaultSeam()
@@ -226,7 +236,7 @@ def coverage_extra(agg):
 
 def required(tier):
     return {"faults_fired_raise": 300, "content_checks": 200, "faults_fired_kill": 30, "fired:open_w": 20, "fired:write": 100, "fired:close": 20,
-            "fired:mkdirs": 1}
+            "fired:mkdirs": 1, "scenarios_with_ge_11_existing_parts": 3}
 
 
 if __name__ == "__main__":
